@@ -8,7 +8,7 @@
         d/dt PE = - (power delivered) + dissipation,   dissipation <= 0,   dissipation = 0 without damping. *)
 From Coq Require Import ZArith Reals Lra Lia List Psatz.
 From Coquelicot Require Import Coquelicot.
-Require Import Num Vec Tactics C13_Model.
+Require Import Num Vec Tactics C13_Model C13_Proofs.
 Import ListNotations.
 Local Open Scope R_scope.
 
@@ -305,6 +305,61 @@ Proof. intros Hk Hd Hb N1 N2. split; [|split].
     apply mstop_dPE_is_derivative; auto.
   - apply mstop_diss_nonpos; auto.
   - intros ->. apply mstop_diss_zero_without_damping; auto. Qed.
+
+
+(** ** LinearBushing (partial): the power delivered to the two bodies equals the generalized force times the
+    coordinate rates the element infers, f . qdot = -(K q + C qdot) . qdot; hence
+    power = -(K q).qdot - sum c_i qdot_i^2, whose second term is a dissipation <= 0 that vanishes for C = 0.
+    Not proved here: that (K q).qdot is d/dt of the reported PE = q'Kq/2, i.e. that the inferred qdot is the time
+    derivative of the inferred Euler angles/translation along the motion (C28 proves the N matrix part). *)
+Lemma dot_mulv (A:Mat33 R) x y : v3_dot ROps (m33_mulv ROps A x) y = v3_dot ROps x (m33_Tmulv ROps A y).
+Proof. dv. vunf. ring. Qed.
+Lemma dot_Tmulv (A:Mat33 R) x y : v3_dot ROps (m33_Tmulv ROps A x) y = v3_dot ROps x (m33_mulv ROps A y).
+Proof. dv. vunf. ring. Qed.
+Lemma Tmulv_T (A:Mat33 R) v : m33_Tmulv ROps (m33_T A) v = m33_mulv ROps A v.
+Proof. dv. vunf. teq; ring. Qed.
+Lemma bush_pair_power pB1F pB2M pFM m f (V1 V2:SpatialVec R) :
+  let P := bush_pair pB1F pB2M pFM m f in
+  sv_dot ROps (fst P) V1 + sv_dot ROps (snd P) V2 =
+  v3_dot ROps m (v3_sub ROps (fst V2) (fst V1)) +
+  v3_dot ROps f (v3_sub ROps (v3_sub ROps (v3_add ROps (snd V2) (v3_cross ROps (fst V2) pB2M))
+                                          (v3_add ROps (snd V1) (v3_cross ROps (fst V1) pB1F)))
+                             (v3_cross ROps (fst V1) pFM)).
+Proof. dv. unfold bush_pair. vunf. ring. Qed.
+
+Lemma bush_wFM (X1 X2 XB1F XB2M:Transform R) w : is_rot (fst X1) -> is_rot (fst XB1F) ->
+  m33_Tmulv ROps (fst (bush_XFM ROps (bush_XGF ROps X1 XB1F) (bush_XGM ROps X2 XB2M))) (m33_Tmulv ROps (fst (bush_XGF ROps X1 XB1F)) w)
+  = m33_Tmulv ROps (fst (bush_XGM ROps X2 XB2M)) w.
+Proof. intros H1 H2. unfold bush_XFM. cbn [fst]. rewrite Tmulv_mul, Tmulv_T.
+  unfold bush_XGF, xf_compose. cbn [fst]. rewrite rot2_cancel by auto. reflexivity. Qed.
+Lemma bushing_power_is_generalized_power_partial (X1 X2:Transform R) V1 V2 XB1F XB2M qr (f:C13_Model.Vec6) :
+  is_rot (fst X1) -> is_rot (fst XB1F) ->
+  let P := bush_F_of_f ROps X1 X2 XB1F XB2M qr f in
+  let qd := bush_qdot ROps X1 X2 V1 V2 XB1F XB2M qr in
+  sv_dot ROps (fst P) V1 + sv_dot ROps (snd P) V2 = v3_dot ROps (fst f) (fst qd) + v3_dot ROps (snd f) (snd qd).
+Proof. intros H1 H2. cbv zeta. rewrite bush_F_is_pair, bush_pair_power. unfold bush_qdot. cbn [fst snd].
+  rewrite bush_wFM by auto. rewrite !dot_mulv. rewrite dot_Tmulv. unfold sv_sub. cbn [fst snd]. reflexivity. Qed.
+
+Lemma bushing_power_balance_partial (X1 X2:Transform R) V1 V2 XB1F XB2M (k c:C13_Model.Vec6) qr :
+  is_rot (fst X1) -> is_rot (fst XB1F) ->
+  let q := bush_q ROps X1 X2 XB1F XB2M qr in
+  let qd := bush_qdot ROps X1 X2 V1 V2 XB1F XB2M qr in
+  let P := fst (bush_core ROps X1 X2 V1 V2 XB1F XB2M k c qr) in
+  let diss := - (v3_dot ROps (v3_mul ROps (fst c) (fst qd)) (fst qd) + v3_dot ROps (v3_mul ROps (snd c) (snd qd)) (snd qd)) in
+  sv_dot ROps (fst P) V1 + sv_dot ROps (snd P) V2 =
+    - (v3_dot ROps (v3_mul ROps (fst k) (fst q)) (fst qd) + v3_dot ROps (v3_mul ROps (snd k) (snd q)) (snd qd)) + diss
+  /\ ((0 <= v3_0 (fst c) /\ 0 <= v3_1 (fst c) /\ 0 <= v3_2 (fst c) /\ 0 <= v3_0 (snd c) /\ 0 <= v3_1 (snd c) /\ 0 <= v3_2 (snd c)) -> diss <= 0)
+  /\ (c = ((0,0,0),(0,0,0)) -> diss = 0).
+Proof. intros H1 H2. cbv zeta. split; [|split].
+  - unfold bush_core. cbn [fst snd]. rewrite bushing_power_is_generalized_power_partial by auto.
+    generalize (bush_q ROps X1 X2 XB1F XB2M qr) (bush_qdot ROps X1 X2 V1 V2 XB1F XB2M qr). intros q qd.
+    destruct k as [k1 k2], c as [c1 c2], q as [q1 q2], qd as [d1 d2]. dv. unfold bush_f. cbn [fst snd]. munf. cbv [v3_mul]. vunf. ring.
+  - generalize (bush_qdot ROps X1 X2 V1 V2 XB1F XB2M qr). intros qd. destruct c as [c1 c2], qd as [d1 d2]. dv. cbn [fst snd]. cbv [v3_mul]. vunf.
+    intros (A0 & A1 & A2 & B0 & B1 & B2).
+    match goal with |- - (?a*?x*?x + ?b*?y*?y + ?c*?z*?z + (?d*?u*?u + ?e*?v*?v + ?g*?w*?w)) <= 0 =>
+      generalize (Rle_0_sqr x) (Rle_0_sqr y) (Rle_0_sqr z) (Rle_0_sqr u) (Rle_0_sqr v) (Rle_0_sqr w) end.
+    unfold Rsqr. intros. nra.
+  - intros ->. generalize (bush_qdot ROps X1 X2 V1 V2 XB1F XB2M qr). intros qd. destruct qd as [d1 d2]. dv. cbn [fst snd]. cbv [v3_mul]. vunf. ring. Qed.
 
 (** non-vacuity *)
 Example spring_hyp_satisfiable : 0 < v3_normSqr ROps (tp_r ROps (Xat O3) O3 (Xat (3,4,0)) O3).
